@@ -89,8 +89,12 @@ func phyCase(s *cases.Set, b []byte, kind string) {
 			}
 		}()
 		var p lorawan.PHYPayload
-		if err := p.UnmarshalBinary(append([]byte{}, b...)); err == nil {
+		in := append([]byte{}, b...)
+		if err := p.UnmarshalBinary(in); err == nil {
 			o = cq.Ok(framefmt.Phy(p, framefmt.DecodedFOptsLen(b)))
+			reuse.CheckIsolation(s, b, in, &p)
+		} else if !bytes.Equal(in, b) {
+			s.Fail(cases.GoFail{Key: fmt.Sprintf("decoder-writes-input:%x", b), What: "PHYPayload.UnmarshalBinary changed its input buffer (rejected frame)", Replay: map[string]interface{}{"bytes": fmt.Sprintf("%x", b)}})
 		}
 	}()
 	cases.End()
